@@ -512,7 +512,7 @@ fn oracle_c11(env: &Env, txs: &[Transaction], acc: &mut Acc) -> Vec<Obs> {
                     // tool's cost pre-pass deliberately ignores 30-day identification, so it is applied to ledgers
                     // without 30-day legs only)
                     let has_bnb = r.disposals.iter().any(|d| d.ticker == tk && d.legs.iter().any(|l| l.rule == Rule::Bnb));
-                    if net <= lower && !has_bnb {
+                    if net <= lower && !has_bnb && readings_agree(txs, &tk, e.date) {
                         acc.bump("bracket:return-absorbable");
                         if let Outcome::Err { msg, .. } = &out {
                             res.extend(with_ctx(vec![ob("absorbable-return-refused", format!("{}: net return {} does not exceed the pool's remaining expenditure {} yet the run fails: {msg}", alpha::dsl_line(e), net, lower))], ctx.clone(), None));
@@ -590,7 +590,8 @@ fn oracle_c11(env: &Env, txs: &[Transaction], acc: &mut Acc) -> Vec<Obs> {
                             // only a violation if the return is certainly absorbable: pool lower bound >= 4 (+4 from the accumulation when it comes first)
                             let pool_cost = pool_cost_at(&r, &tk, d);
                             let earlier_returns: Rat = txs.iter().filter(|t| t.ticker == tk && t.date < d && matches!(t.operation, Operation::CapReturn { .. })).map(|t| -net_of(&t.operation, t.date, env)).sum();
-                            if pool_cost - earlier_returns >= Rat::int(4) {
+                            let has_bnb = r.disposals.iter().any(|d| d.ticker == tk && d.legs.iter().any(|l| l.rule == Rule::Bnb));
+                            if pool_cost - earlier_returns >= Rat::int(4) && !has_bnb && readings_agree(txs, &tk, d) {
                                 res.extend(with_ctx(vec![ob("equal-accumulation-and-return-do-not-cancel", format!("inserting the cancelling pair makes the run fail: {msg}"))], ctx, None));
                             }
                         }
@@ -601,6 +602,15 @@ fn oracle_c11(env: &Env, txs: &[Transaction], acc: &mut Acc) -> Vec<Obs> {
         }
     }
     res
+}
+
+/// "Expenditure remaining on the shares held" is the Section 104 pool's average-cost remainder in R, but the cost of
+/// the specific lots left after first-in-first-out consumption in the tool's pre-pass. The two coincide when nothing
+/// was sold before the event or when a single purchase precedes it; only then is "must be accepted" reading-independent.
+fn readings_agree(txs: &[Transaction], tk: &str, event: NaiveDate) -> bool {
+    let sells = txs.iter().filter(|t| t.ticker == tk && t.date < event && matches!(t.operation, Operation::Sell { .. })).count();
+    let buys = txs.iter().filter(|t| t.ticker == tk && t.date < event && matches!(t.operation, Operation::Buy { .. })).count();
+    sells == 0 || buys <= 1
 }
 
 /// R's position at the start of an arbitrary date (not necessarily an event date).
